@@ -21,6 +21,19 @@ class C05(SessionCheck):
         "UnscheduledOperationsObserver (coq/model/World.v, Filters.v, Observers.v) - tied by differential "
         "execution; list(set(...)) results are compared as sorted lists"]
 
+    def make_case(self, rng):
+        case, stats = super().make_case(rng)
+        evs = case["events"]
+        k = 0
+        while k < len(evs) and evs[k][0] == 3:
+            k += 1
+        if "env" not in case and not any(ev[0] in (3, 4, 5, 6, 10) for ev in evs[k:]) and rng.random() < 0.6 \
+                and all(case["spec"]):
+            # a ResidualGraphUpdater of the library watches the whole session from outside the model world
+            evs.insert(k, [11, rng.randrange(4)])
+            stats["foreign_updater"] = 1
+        return case, stats
+
     def extra_requests(self, case, obs):
         rows = self.rows_before(case, obs)
         items = []
